@@ -111,6 +111,7 @@ func VerifBastion() {
 	evs := rt.Events
 
 	status := rec.Status
+	verifBastionReplayFacts(d, malformed, oldSize, cp, proof, rec)
 	rt.Assert(rec.WroteHeaders == 1, "C10/exactly-one-status")
 	okSet := status == 200 || status == 400 || status == 403 || status == 404 || status == 409 || status == 422 || status == 429 || status == 500
 	rt.Assert(okSet, "C10/status-is-documented")
@@ -235,4 +236,62 @@ func verifBody200(d *verifDeployment, li int, cp []byte, rec *rt.RecWriter, evs 
 	rt.Assert(rt.HasSig(signed, d.wk) && rt.Eq(rt.NoteText(signed), rt.NoteText(cp)), "C10/cosignature-over-submitted-text")
 	want := fmt.Sprintf("— %s %s\n", d.witName, rt.UFStr("sigB64", signed, d.wk))
 	rt.Assert(string(rec.Body) == want, "C10/body-is-the-witness-signature-line")
+}
+
+// verifBastionReplayFacts names the facts from which the native replay
+// (native/omniwitness TestReplayBastion) rebuilds the request, the witness state and the
+// configuration with real keys, and declares one replayable cover witness per status class.
+func verifBastionReplayFacts(d *verifDeployment, malformed bool, oldSize uint64, cp []byte, proof [][]byte, rec *rt.RecWriter) {
+	if rt.Param("replay", 1) != 1 {
+		return
+	}
+	allowEv, _ := rt.Find("limiter.allow", 0)
+	rt.Name("b.allow", allowEv.U[0] == 1)
+	rt.Name("b.malformed", malformed)
+	rt.Name("b.status", uint64(rec.Status))
+	rt.Name("b.sizeBody", rt.HeaderGet(rec.H, "Content-Type") == "text/x.tlog.size")
+	rt.Name("b.hasBody", len(rec.Body) > 0)
+	small := true
+	li := -1
+	if !malformed && allowEv.U[0] == 1 {
+		rt.Name("b.hasNewline", rt.UFBool("hasNewline", cp))
+		rt.Name("b.oldSize", oldSize)
+		rt.Name("b.proofLen", uint64(len(proof)))
+		small = small && oldSize <= 12
+		origin := rt.UFStr("firstLine", cp)
+		for i := range d.ids {
+			if rt.LogID(origin) == d.ids[i] {
+				li = i
+			}
+		}
+		rt.Name("b.known", li >= 0)
+		if li >= 0 {
+			rt.Name("b.stored", d.stored[li])
+			rt.Name("b.nextValid", rt.Valid(cp, d.origins[li], d.keys[li], nil))
+			rt.Name("b.nextSize", rt.CpSize(cp))
+			small = small && rt.CpSize(cp) <= 9 && rt.SigLines(cp) <= 3
+			if d.stored[li] {
+				prev := d.prev[li]
+				rt.Name("b.prevValid", rt.Valid(prev, d.origins[li], d.keys[li], nil))
+				rt.Name("b.prevWitOK", rt.Valid(prev, d.origins[li], d.wk, nil))
+				rt.Name("b.prevSize", rt.CpSize(prev))
+				rt.Name("b.sameRoot", rt.Eq(rt.CpHash(cp), rt.CpHash(prev)))
+				rt.Name("b.vcOK", rt.VCVerdict(rt.CpSize(prev), rt.CpSize(cp), len(proof), rt.ProofTerm(proof), rt.CpHash(prev), rt.CpHash(cp)))
+				small = small && rt.CpSize(prev) <= 9 && rt.SigLines(prev) <= 5
+			}
+		}
+	}
+	ok := small && rt.Count("SignFail") == 0
+	st := rec.Status
+	rt.Cover(ok && st == 429, "replay/b-429")
+	rt.Cover(ok && st == 400 && malformed, "replay/b-400-malformed")
+	rt.Cover(ok && st == 404, "replay/b-404")
+	rt.Cover(ok && st == 403, "replay/b-403")
+	rt.Cover(ok && st == 200 && li >= 0 && !d.stored[li], "replay/b-200-first-use")
+	rt.Cover(ok && st == 200 && li >= 0 && d.stored[li], "replay/b-200-update")
+	rt.Cover(ok && st == 400 && !malformed && li >= 0, "replay/b-400-oldsize")
+	rt.Cover(ok && st == 409 && rt.HeaderGet(rec.H, "Content-Type") == "text/x.tlog.size", "replay/b-409-stale")
+	rt.Cover(ok && st == 409 && rt.HeaderGet(rec.H, "Content-Type") != "text/x.tlog.size", "replay/b-409-root")
+	rt.Cover(ok && st == 422, "replay/b-422")
+	rt.Cover(ok && st == 500 && li >= 0 && d.stored[li], "replay/b-500-stored")
 }
